@@ -257,7 +257,12 @@ class ExtOracle:
             step = ("say", 0, [])
         else:
             step = self.plan.pop(0)
-        if step[0] == "real" or (command[0] == "install" and step[1] == 0):
+        if command[0] != "install":
+            if step[0] == "real":               # never run patch(1)/anything else for real
+                step = ("say", 0, [])
+        elif step[0] != "real" and step[1] == 0:
+            step = ("real",)                    # an install(1) that "succeeds" has to do its work
+        if step[0] == "real":
             kw.pop("fd_pipes", None)
             ret, out = self.real(command, **kw)
             out = [l[:-1] if l.endswith("\n") else l for l in out]
@@ -809,9 +814,15 @@ def main(chk: Check):
              "outcome); small streams: shlex / repr / _encode_ret incl. multi-line messages; every reply line "
              "seen is also read back by the REAL bash __ebd_read_array + __ipc_exit; REAL bash __ebd_ipc_cmd "
              "round trips over a pipe pair")
+    import time
+    tm = {}
+    t0 = time.time()
     ok = chk.build(["C32/Prop_C32.vo"])
+    tm["build"] = time.time() - t0
+    t0 = time.time()
     if ok:
         chk.check_assumptions("C32/Prop_C32.v")
+    tm["assumptions"] = time.time() - t0
     chk.lint(["C32"])
     chk.check_fingerprint(ANCHORS + ["../../data/lib/pkgcore/ebd/ebuild-daemon-lib.bash"])
     rng = chk.rng
@@ -837,6 +848,7 @@ def main(chk: Check):
         for cls, detail in session_oracle(w, meta, res):
             prop_bad.append((cls, detail))
 
+    t0 = time.time()
     n_sess = int(chk.n(160, 1500) * scale)
     for i in range(n_sess):
         w, down, meta = gen_session(rng, scratch, i)
@@ -885,6 +897,8 @@ def main(chk: Check):
         chk.sample({"stream": "sess", "requests": [list(x) for x in m["reqs"]], "pre": m["pre"],
                     "faults": m["faults"], "wire": r[0], "end": r[2], "image": r[3]})
 
+    tm["sessions"] = time.time() - t0
+    t0 = time.time()
     # ---- real bash round trips
     rq_cases, rt_reply_cases = [], []
     n_rt = int(chk.n(6, 40) * scale) or 1
@@ -941,6 +955,8 @@ def main(chk: Check):
     chk.count("bashrt", len(rt_reply_cases))
     chk.count("bashrq", len(rq_cases))
 
+    tm["roundtrips"] = time.time() - t0
+    t0 = time.time()
     # ---- small streams
     shlex_cases = [(bs(esc(s)), Raw(rval(impl_call(lambda: shlex.split(s), kinds={"ValueError": "ValueError"}))))
                    for s in gen_shlex(rng, int(chk.n(250, 3000) * scale))]
@@ -993,6 +1009,8 @@ def main(chk: Check):
                 chk.nontrivial(("rd", nf, line))
     chk.count("bashrd", len(rd_cases))
 
+    tm["small+bash"] = time.time() - t0
+    t0 = time.time()
     # ---- evaluate model and spec inside Coq
     streams = [
         ("shlex", "bstr", shlex_cases, ["mismatches run_shlex cases"]),
@@ -1032,6 +1050,8 @@ def main(chk: Check):
                                "down": down.decode("latin-1")})
             chk.violation("correspondence", detail, no_input=not (prop_bad or spec_bad))
 
+    tm["coq_eval"] = time.time() - t0
+    chk.cov["timing_s"] = {k: round(v, 1) for k, v in tm.items()}
     # ---- property failures
     seen_cls = set()
     n_viol = 0
